@@ -35,7 +35,7 @@ import (
 //
 // oracle classes of o.limited: limit-exceeded-silently, truncated (as below), and
 //   limited-server-code-not-resource-exhausted   the request exceeds the limit and the call fails, but not with
-//                             ResourceExhausted (limitedServer.Send returns a plain wrapped error)
+//                             ResourceExhausted (limitedServer.Send returned a plain wrapped error; repaired in /repo)
 //
 // oracle classes (both store ops; "demand" is computed from the blocks in the op line with the real matchers):
 //   limit-exceeded-silently   the call succeeded with more series (chunks) than the series (chunks) limit
